@@ -33,6 +33,7 @@
 
 
 #include "flexdef.h"
+#include <signal.h>
 #include "version.h"
 #include "options.h"
 #include "tables.h"
@@ -154,6 +155,10 @@ int flex_main (int argc, char *argv[])
 			    || WEXITSTATUS (child_status) != 0){
 				/* report an error of a child
 				 */
+				if (WIFSIGNALED (child_status))
+					fprintf (stderr,
+						 _("%s: filter process terminated by signal %d\n"),
+						 program_name, WTERMSIG (child_status));
 				if( exit_status <= 1 )
 					exit_status = 2;
 
@@ -306,6 +311,12 @@ void initialize_output_filters(void)
 	if (preproc_level > 0) {
 		filter_truncate(output_chain, preproc_level);
 		filter_apply_chain(output_chain);
+#ifdef SIGPIPE
+		/* If a filter dies, stay alive to collect and report its
+		 * status instead of being killed while writing to it.
+		 */
+		signal (SIGPIPE, SIG_IGN);
+#endif
 	}
 }
 
